@@ -32,6 +32,9 @@ def sweeps(tier):
         sweep(tv + OTHERS + [MISSING, KERR], [[], ['upper'], ['html_quote']], fmts=('', 'upper', 'pct'),
               nulls=(False, True), missings=(False, True), sizes=(-1, 2)),
         sweep(tv, pairs, cfmts=('s', '6s'), sizes=(-1, 3, 7)),
+        # the C-style format stage runs whatever the options are: none, a single modifier (html_quote alone takes the short path
+        # of the renderer for %(x html_quote)s), with and without size
+        sweep(tv + OTHERS, singles, cfmts=('6s',), sizes=(-1, 4), forms=('name', 'expr')),
     ]
     # untrusted (tainted) values go through the same modifier functions: the laws of C15 hold for them too
     tt = [text("<b>x' OR 1=1 --\x00\x1a\r", True), text("it's <i>a b_c 1234567.5", True), text("<'>%3C%27+x", True)]
